@@ -110,6 +110,16 @@ def reset_paths(ctx, clr):
                         const_stores.setdefault(path, set()).add(e["value"][1])
             elif e["how"] == "call" and e.get("name") in RESET_CALLS and len(e["path"]) == len(path):
                 rs.add(path)
+        # a container the path has just found empty needs no reset on that path (`if self.known.is_empty() { return; }`)
+        from ..guards import fv as _fv
+        from ..terms import mk as _mk, const as _const
+        fd_ = {repr(c_): t_ for c_, t_ in pe.path_facts(p)}
+        for (c_, t_) in pe.path_facts(p):
+            for x_ in subterms(c_):
+                if x_[0] == "call" and x_[1].rsplit("::", 1)[-1] in ("is_empty", "len") and len(x_[2]) == 1 and x_[2][0][0] == "field" and x_[2][0][1][:2] == ("param", 1):
+                    empty = _fv(fd_, x_) is True if x_[1].endswith("is_empty") else _fv(fd_, _mk("Eq", x_, _const(0))) is True
+                    if empty:
+                        rs.add((x_[2][0][2],))
         per_path.append(rs)
     if not per_path:
         return None, [], const_stores
